@@ -52,6 +52,9 @@ def run_case(c, rnd, tmp):
         with warnings.catch_warnings():
             warnings.simplefilter("ignore")
             df = zoo.cohort(n_ind=6, dim=dim, seed=rnd.choice([0, 1, 3]), events=(kind == "joint"))
+            if feats == "int_labels":
+                # feature columns labelled by integers (not in increasing order): accepted end to end, must come back as such
+                df = df.rename(columns={f"Y{i}": [10, 2, 7, 5][i] for i in range(dim)})
             if feats == "named":
                 df = df.rename(columns={f"Y{i}": f"feat_{chr(97 + i)}" for i in range(dim)})
             data = Data.from_dataframe(df, data_type="joint") if kind == "joint" else Data.from_dataframe(df)
